@@ -52,6 +52,11 @@ GROUPS = {
 EXTRACTS = [
     dict(file="weechess-engine/src/uci.rs", marker=".filter_map(|m| {", out="uci_extracted.rs",
          header="pub fn uci_move_token(m: &&str) -> Option<MoveQuery> {"),
+    # the FEN reader after its regex gate: everything from the first field parser call to the end of the function,
+    # with `groups` an index-by-number view of the six captured fields (same Index<usize, Output = str> as regex::Captures)
+    dict(kind="fn_tail", file="weechess-core/src/notation.rs", scopes=["mod fen", "impl TryFromNotation<State> for Fen"],
+         fn="try_from_notation", marker="let board = Board::try_parse(&groups[1])?;", out="fen_reader_extracted.rs",
+         header="pub fn fen_reader_after_regex(groups: &Groups<'_>) -> Result<State, ()> {"),
 ]
 
 C20M = "crate::moves::verif_c20::"
@@ -144,6 +149,9 @@ PROPS["C20"] = dict(
         K("c20", "c20_by_en_passant_contract", "contract", functions=["Move::by_en_passant"]),
         K("c20", "c20_by_castling_contract", "contract", desc="king from e1/e8 to g/c file, castle side set, nothing else",
           functions=["Move::by_castling", "KING_ORIGINS", "CASTLE_DESTS"]),
+        K("c20", "c20_contract_functions_equal_constructors", desc="the five constructor contracts written as functions (spec_pack of the attribute "
+          "tuple) are pointwise equal to the real constructors on the whole argument domain, and spec_pack inverts the accessor view",
+          functions=MOVE_CTORS[:5]),
         K("c20", "c20_eq_iff_attributes", desc="for two arbitrary valid moves: m1 == m2 <=> all nine attributes equal "
           "(injectivity of the packing)", functions=["<Move as PartialEq>::eq"]),
         K("c20", "c20_eq_iff_arguments", desc="constructor-built moves are equal iff the constructor arguments are equal; "
@@ -300,6 +308,18 @@ PROPS["C01"] = dict(
         K("c01", "c01_k2_expand_moves_contract", kind="bounded", bound="<= 3 destination squares; position fully symbolic",
           desc="K2 expand_moves: appends exactly one move per destination in ascending order, capture kind = kind standing there, "
           "nothing else changes", functions=["GameStateHelper::expand_moves", "Board::piece_at"], timeout=2400),
+        K("c01", "c01_k1_pawn_moves_sound", kind="bounded", bound="one own pawn; every other piece arbitrary", tier="experimental", desc="K1 compute_pawn_moves "
+          "against the constructor contracts, soundness: every generated move satisfies the mailbox rules for pushes, double steps, captures, en "
+          "passant and the four promotions with exact attributes; no duplicates", functions=["MoveGenerator::compute_pawn_moves"], timeout=5400, heavy=True, mem_gb=30),
+        K("c01", "c01_k1_pawn_moves_complete", kind="bounded", bound="one own pawn; every other piece arbitrary", tier="experimental", desc="K1 completeness: every "
+          "move value the rules allow is generated", functions=["MoveGenerator::compute_pawn_moves"], timeout=5400, heavy=True, mem_gb=30),
+    ] + [
+        K("c01", "c01_k1_pawn_pushes_%s_%s" % (h, c), kind="bounded", bound="%s to move, NO opposing piece and no en-passant target (the capture loops fold "
+          "away); %s own pawns, other own pieces arbitrary" % (c, "<= 8" if h == "sound" else "<= 2"),
+          desc="K1 compute_pawn_moves restricted to pushes: single steps, double steps from the home rank over two empty squares, the four "
+          "promotions -- %s" % ("every generated move obeys the rules with exact attributes, no duplicates" if h == "sound" else "every move the rules allow is generated"),
+          functions=["MoveGenerator::compute_pawn_moves"], timeout=9000, tier="experimental", heavy=True, mem_gb=40)
+        for h in ["sound", "complete"] for c in ["white", "black"]
     ] + [
         K("c01", "c01_k2_%s_moves" % k, kind="bounded", bound="<= 3 own pieces of the kind; abstract attack function; expand_moves replaced by its contract",
           desc="K2 compute_%s_moves: calls expand_moves once per own %s, in square order, with destinations A(piece) minus own pieces"
@@ -421,10 +441,25 @@ PROPS["C11"] = dict(
           functions=["ArrayMap<Color,CastleRights>::try_parse"]),
         K("c11", "c11_square_text_roundtrip", desc="Display for Square writes file letter + rank digit and Square::try_from reads it back, all 64 squares",
           functions=["Display for Square/File/Rank", "<Square as TryFrom<&str>>::try_from"]),
-        K("c11", "c11_castling_field_write_and_read_back", tier="thorough", desc="both sides, all 16 castling sets: the writer emits exactly the canonical line "
+        K("c11", "c11_reader_dashes_contract", desc="the FEN reader after its regex gate (function tail extracted verbatim) on the dash forms: '-' "
+          "castling field and '-' en-passant field give no rights and no target", functions=["<Fen as TryFromNotation<State>>::try_from_notation (after Regex::captures)"], timeout=2400),
+    ] + [
+        K("c11", "c11_reader_%s_contract" % f, desc="the FEN reader after its regex gate (function tail extracted verbatim) with the %s symbolic and the other "
+          "fields fixed: it returns exactly the components spelled" % d,
+          functions=["<Fen as TryFromNotation<State>>::try_from_notation (after Regex::captures)"] + fx, timeout=2400)
+        for f, d, fx in [("castling_field", "castling set (all 16; fixed-length spelling)", ["ArrayMap<Color,CastleRights>::try_parse"]),
+                         ("en_passant_field", "en-passant square (all 64)", ["<Square as TryFrom<&str>>::try_from"]),
+                         ("clock_fields", "two clocks (three digits each, 000..999)", ["str::parse::<usize>"])]
+    ] + [
+        dict(name="c11_native_fields_exhaustive", backend="native", kind="bounded", tier="quick", crate=CORE, file="c11.rs",
+             test="c11_native_fields_exhaustive", bound="native execution (not symbolic): 3 placements x 2 sides x all 16 castling sets x all 65 en-passant "
+             "values x 8 clock pairs (0..65535), canonical spelling", desc="the REAL reader (regex included) returns exactly the components spelled and the "
+             "REAL writer reproduces the text character for character", functions=["<Fen as TryFromNotation<State>>::try_from_notation",
+             "<Fen as IntoNotation<State>>::into_notation"], timeout=1800),
+        K("c11", "c11_castling_field_write_and_read_back", tier="experimental", desc="both sides, all 16 castling sets: the writer emits exactly the canonical line "
           "(KQkq order or '-'; whole line compared byte by byte) and the castling-field parser reads the written field back to the same "
           "rights", functions=["<Fen as IntoNotation<State>>::into_notation", "ArrayMap<Color,CastleRights>::try_parse"], timeout=5400, heavy=True),
-        K("c11", "c11_en_passant_field_write_and_read_back", tier="thorough", desc="every en-passant target or '-': written as the square name and read back by "
+        K("c11", "c11_en_passant_field_write_and_read_back", tier="experimental", desc="every en-passant target or '-': written as the square name and read back by "
           "Square::try_from to the same square", functions=["<Fen as IntoNotation<State>>::into_notation", "<Square as TryFrom<&str>>::try_from",
           "Display for Square"], timeout=5400, heavy=True),
     ] + [
@@ -437,14 +472,18 @@ PROPS["C11"] = dict(
                  "usize Display / str::parse round-trip for the two counters (std); the obligations fix the clocks to 0 and 1",
                  "equality of legal moves, hash and evaluation after a round trip follows from equality of the five state components "
                  "(those functions read nothing else)"],
-    not_claimed=["the placement WRITER on a symbolic board (64 x piece_at through core::fmt did not finish in the time available): the "
-                 "writer's placement part is exercised only on the fixed two-king board of c11_fields_write_and_read_back",
+    not_claimed=["the FEN WRITER as a symbolic obligation: even on a fixed two-king board with only the castling field symbolic the writer "
+                 "(about 40 write! calls through core::fmt's function-pointer dispatch) did not finish in 90 minutes / 12 GB; the two "
+                 "harnesses exist (tier experimental) but are in no tier; the writer is covered only by the native exhaustive stand-in over "
+                 "the finite non-placement domain and by the Square/File/Rank Display obligation",
                  "cross-rank interaction of the parser's u8 cursor beyond one symbolic rank"],
     technique="Kani/CBMC: FEN writer through core::fmt against a byte-level spec, and the field parsers as its inverse",
-    level_text="Proof for the non-placement fields (side x all 16 castling sets, and side x every en-passant value: the whole written "
-               "line is compared byte for byte with the canonical spelling, then the field is read back by the real field parser); "
-               "the placement parser is checked one symbolic rank at a time (thorough tier, bounded, listed separately).",
-    level_note="Regex gate and std integer formatting/parsing assumed. The placement writer on arbitrary boards is not proved.",
+    level_text="Proof for the READER: the function tail after the regex gate (extracted verbatim every run) returns exactly the spelled "
+               "side, castling set (all 16), en-passant square (all 64 or none) and clocks (000..999); the castling-field parser "
+               "inverts the canonical spelling; Square text round-trips. The writer and the regex gate are covered by a native "
+               "exhaustive stand-in over the finite non-placement domain; the placement parser one symbolic rank at a time (thorough).",
+    level_note="Regex gate assumed in the proof obligations (exercised natively in the stand-in). The FEN writer is not proved "
+               "(symbolic execution through core::fmt does not finish); placement: parser only, one rank at a time.",
 )
 
 PROPS["C10"] = dict(
